@@ -416,7 +416,7 @@ def _as_int(x):
 
 
 def _segs_key(rows):
-    return tuple((s.src, s.lo, s.hi) for s in rows.segs)
+    return rows.canon()
 
 
 def _getitem(a, index):
